@@ -178,12 +178,10 @@ def SimpleOK (d : EnumData) (n : Nat) : Prop :=
     perInstance d n = true
 
 theorem withSources_eq {d : EnumData} {n : Nat} (hwf : WF d n) (hs : SimpleOK d n) :
-    (if (decide (n = d.q) && d.unweighted) = true then
+    (if perInstance d n = true then
         (Except.ok (crossingsShape d n * prodList (shapes d)) : Except PyErr Nat)
       else sumCombinationProducts d (crossingsShape d n) n) =
       .ok ((List.range (crossingsShape d n)).map (srcChoices d n)).sum := by
-  have hpi_def : perInstance d n = (decide (n = d.q) && d.unweighted) := rfl
-  rw [← hpi_def]
   cases hpi : perInstance d n with
   | true =>
     simp only [if_true]
@@ -264,7 +262,7 @@ theorem count_eq' {d : EnumData} {n : Nat} (hwf : WF d n) (hs : SimpleOK d n) :
     countSolutions d n = .ok (candidates d n) := by
   simp only [countSolutions, candidates]
   have h := withSources_eq hwf hs
-  by_cases hc : (decide (n = d.q) && d.unweighted) = true
+  by_cases hc : perInstance d n = true
   · rw [if_pos hc] at h ⊢
     rw [h]
     simp only [bind, Except.bind, pure, Except.pure, foldl_pow, sumFold_eq, prodList_eq]
